@@ -142,6 +142,8 @@ def lookup(ex, name):
         return strmodel.lookup(ex, name)
     if name in LIBM1 or name in LIBM2 or name in ('fabs', 'fmin', 'fmax'):
         return lambda st, a: libm(s, st, name, a)
+    if name in ('logl', 'expl', 'sqrtl', 'fabsl', 'floorl'):          # long double variants (carried as doubles)
+        return lambda st, a: libm(s, st, name[:-1], a)
     if name in ('isnan', '__isnan', '_ZSt5isnand'): return None
     # ---------------------------------------------------------------- harness primitives
     if name == 'sym_f64': return lambda st, a: s.fresh_val(st, DOUBLE, mem.cstr(st, a[0]))
